@@ -348,6 +348,10 @@ func (m *Model) classifyMapLoop(ml *mapLoop) *mapLoopVerdict {
 			if persistent > 0 {
 				v.sensitive = append(v.sensitive, fmt.Sprintf("early exit at %s after effects that persist: which keys were processed depends on iteration order", m.InstrPos(b.Instrs[len(b.Instrs)-1])))
 			}
+			if len(appendPhis) > 0 {
+				// sorting afterwards does not help: WHICH elements were collected before the exit depends on the order
+				v.sensitive = append(v.sensitive, fmt.Sprintf("early exit at %s from a loop that collects elements: the collected subset depends on iteration order (sorting it later does not undo that)", m.InstrPos(b.Instrs[len(b.Instrs)-1])))
+			}
 		}
 	}
 	v.sensitive = dedup(v.sensitive)
